@@ -21,20 +21,21 @@ type Prop struct {
 
 // Violation is what a worker reports for a failing run, after minimisation.
 type Violation struct {
-	Property   string   `json:"property"`
-	Clause     string   `json:"clause"`
-	Key        string   `json:"key"`
-	Msg        string   `json:"msg"`
-	Seed       uint64   `json:"seed"`
-	RunIndex   int      `json:"run_index"`
-	Mode       string   `json:"mode"`
-	Tape       []uint32 `json:"tape"`
-	OrigTape   int      `json:"orig_tape_len"`
-	Labels     []string `json:"labels,omitempty"`
-	TraceHash  string   `json:"trace_hash"`
-	Events     []string `json:"events"`
-	ShrinkRuns int      `json:"shrink_runs"`
-	Race       bool     `json:"race"`
+	Property   string      `json:"property"`
+	Clause     string      `json:"clause"`
+	Key        string      `json:"key"`
+	Msg        string      `json:"msg"`
+	Seed       uint64      `json:"seed"`
+	RunIndex   int         `json:"run_index"`
+	Mode       string      `json:"mode"`
+	Tape       []uint32    `json:"tape"`
+	OrigTape   int         `json:"orig_tape_len"`
+	Labels     []string    `json:"labels,omitempty"`
+	TraceHash  string      `json:"trace_hash"`
+	Events     []string    `json:"events"`
+	ShrinkRuns int         `json:"shrink_runs"`
+	Race       bool        `json:"race"`
+	Case       interface{} `json:"case,omitempty"`
 }
 
 // Summary is the worker's final JSON line.
@@ -152,7 +153,7 @@ func Main(t *testing.T, props map[string]Prop) {
 		res := runOne(t, p, ReplayTape(v.Tape), v.Seed, true)
 		c, k := failKey(res.Failures)
 		rep := map[string]interface{}{"replayed": true, "clause": c, "key": k, "trace_hash": fmt.Sprintf("%016x", res.TraceHash),
-			"events": renderLog(res.Log, 400), "failures": res.Failures}
+			"events": renderLog(res.Log, 5000), "failures": res.Failures}
 		enc.Encode(rep)
 		return
 	}
@@ -371,7 +372,7 @@ func minimise(t *testing.T, p Prop, name string, res Result, idx int, pet func()
 	}
 	return Violation{Property: name, Clause: clause, Key: key, Msg: msg, Seed: res.Seed, RunIndex: idx, Mode: Mode(),
 		Tape: best, OrigTape: len(res.Tape), Labels: final.Labels, TraceHash: fmt.Sprintf("%016x", final.TraceHash),
-		Events: renderLog(final.Log, 300), ShrinkRuns: runs}
+		Events: renderLog(final.Log, 300), ShrinkRuns: runs, Case: final.Sample}
 }
 
 func trimZeros(v []uint32) []uint32 {
